@@ -80,7 +80,14 @@ def main():
         for c in checks:
             t0 = time.time()
             env = dict(os.environ, VERIF_REPO=wt, VERIF_SEED=a.seed)
-            rc, out = sh("./check %s --tier %s" % (c, a.tier), cwd=VERIF, env=env, timeout=7200)
+            # the check rewrites evidence/<id>.json: keep the record of the UNCHANGED tree, put it back afterwards
+            evp = os.path.join(VERIF, "evidence", c + ".json")
+            saved = open(evp).read() if os.path.exists(evp) else None
+            try:
+                rc, out = sh("./check %s --tier %s" % (c, a.tier), cwd=VERIF, env=env, timeout=7200)
+            finally:
+                if saved is not None:
+                    open(evp, "w").write(saved)
             lines = [ln for ln in out.split("\n") if ln.startswith(("VIOLATION", "  what:", "KNOWN-FINDING"))]
             viol = [ln for ln in lines if ln.startswith("VIOLATION")]
             what = [ln.strip()[:400] for ln in lines if ln.startswith("  what:")]
